@@ -221,6 +221,9 @@ func c14One(run *ev.Run, p c14P) {
 	if r.Intn(2) == 0 {
 		repo.OpSupportSet, repo.OpSupport = true, []byte{0x00, 0x01, 0x02, 0x03, 0x80, 0x83, 0x10, 0xff, 0x2f}[r.Intn(9)]
 	}
+	// half of the BMCs check the reservation ID on every partial read, the other half only where the
+	// specification requires it (reads at a non-zero offset)
+	repo.ReservationOnPartialOnly = r.Intn(2) == 0
 	switch p.TS {
 	case 1:
 		repo.StampFn = func(uint32) uint32 { return 0xffffffff }
@@ -416,13 +419,16 @@ func c14One(run *ev.Run, p c14P) {
 			run.Violation("C14:final-walk-reservation", fmt.Sprintf("%s: final walk request %+v not served under reservation %#x", desc, rq, log[lastResv].Resv), cs, nil)
 			return
 		}
-		if ver >= 0 && rq.Version != ver {
+		if ver >= 0 && rq.Version != ver && !repo.ReservationOnPartialOnly {
 			run.Violation("C14:final-walk-spans-versions", fmt.Sprintf("%s: final walk read versions %d and %d", desc, ver, rq.Version), cs, nil)
 			return
 		}
 		ver = rq.Version
 	}
-	if ver >= 0 && ver != matched && c14Matches(got, versions[ver]) != "" {
+	// (a BMC that checks the reservation only at non-zero offsets, and here also leaves its timestamps
+	// alone, gives a console no way of noticing a change that is followed by header reads only; what
+	// is returned then still has to be one version - the existential test above - but not the last)
+	if ver >= 0 && ver != matched && c14Matches(got, versions[ver]) != "" && !repo.ReservationOnPartialOnly {
 		run.Violation("C14:result-not-from-final-walk", fmt.Sprintf("%s: result equals version %d but the final walk read version %d", desc, matched, ver), cs, nil)
 		return
 	}
